@@ -28,8 +28,37 @@ META = {
 SCALARS = ("beta", "log_evidence", "log_evidence_error")
 
 
+def shape_rule(ctx, repo):
+    """C16.shape: the constructor stores every per-sample field as a value- and shape-preserving conversion of what it was given.  All
+    selections / concatenations / conversions build their result through it; a rank-changing step (`.squeeze()` without an axis drops the
+    *sample* axis of a one-row set, `.reshape(-1)` on x, `.item()`) leaves x with N rows and the log-densities with another shape."""
+    n = 0
+    for cn in CLASS_NAMES:
+        C = repo.cls(f"aspire.samples:{cn}")
+        m = C.resolve("__post_init__")
+        if m is None:
+            continue
+        # methods the evaluator otherwise treats as value preserving are rank-changing here
+        ev, _ = fold(repo, m, C, opaque_methods={"squeeze", "ravel", "flatten", "item", "tolist", "reshape"})
+        for f in C.init_fields():
+            if not f.per_sample:
+                continue
+            n += 1
+            v = ev.heap.get((SELF, f.name), self_attr(f.name))
+            leaves = [l for l in T.phi_leaves(T.strip_raise(v))]
+            ok = all(l == self_attr(f.name) or l == T.NONE for l in leaves)
+            ctx.decide(ok, "C16.shape", f"{C.ident}.__post_init__", loc_of(m), f"{cn}: `{f.name}` is stored as a shape-preserving conversion of the value given",
+                       f"{cn}: the constructor stores {f.name} = {T.show(v)[:120]}: not a shape-preserving conversion of the value it was given (a squeeze / reshape / reduction changes the "
+                       "rank for some N, e.g. a one-row selection gets 0-d log-densities next to an x of shape (1, d)), so the rows of the fields no longer line up", disc=f"{cn}|{f.name}")
+    ctx.floor("per-sample fields stored by the constructors", n, 12)
+
+
+CLASS_NAMES = ("BaseSamples", "Samples", "SMCSamples")
+
+
 def run(ctx):
     repo = ctx.repo
+    shape_rule(ctx, repo)
     rbs = rebuilds(repo)
     ctx.count("rebuild_methods_folded", len(rbs))
     n_get = n_cat = 0
@@ -367,6 +396,9 @@ MUTANTS += [
     M("from_dict drops everything but the coordinates", _S, "return cls(x=x, parameters=parameters, **dictionary)", "return cls(x=x, parameters=parameters)", "C16.dictrt"),
     M("from_dict filters on non-constructor fields", _S, "init_names = {f.name for f in fields(cls) if f.init}", "init_names = {f.name for f in fields(cls) if not f.init}", "C16.dictrt"),
     M("from_dict swaps prior and likelihood", _S, "return cls(x=x, parameters=parameters, **dictionary)", 'dictionary["log_prior"], dictionary["log_likelihood"] = dictionary.get("log_likelihood"), dictionary.get("log_prior")\n        return cls(x=x, parameters=parameters, **dictionary)', "C16.dictrt"),
+]
+MUTANTS += [
+    M("constructor squeezes the proposal log-density", _S, "self.log_q = self.array_to_namespace(self.log_q, dtype=self.dtype)", "self.log_q = self.array_to_namespace(self.log_q, dtype=self.dtype).squeeze()", "C16.shape"),
 ]
 NEUTRALS = [
     M("from_dict stacks columns in mapping order (insertion order is kept in memory)", _S, "x = np.stack([samples[p] for p in parameters], axis=-1)", "x = np.stack(list(samples.values()), axis=-1)"),
